@@ -202,6 +202,13 @@ Theorem sim_readimage : forall m s r out,
 Proof. exact sim_readimage_lemma. Qed.
 Print Assumptions sim_readimage.
 
+(** GRIget_image_list marks a compressed image of the file for the buffered driver: the code it compares
+    GRIisspecial_type's result with is SPECIAL_COMP and GRIisspecial_type reports it (both regenerated from
+    mfgr.c); without it region writes to such an image are refused (comp_write_refused) and sim_writeimage fails. *)
+Theorem compressed_selected_is_buffered : selected_comp_buffered = true.
+Proof. exact selected_comp_buffered_lemma. Qed.
+Print Assumptions compressed_selected_is_buffered.
+
 (** Non-vacuity and concrete instances. *)
 Example walk_line_to_pixel :
   il_convert_walk ILline ILpixel 3 2 2 1 [1;2;3;4;5;6;7;8;9;10;11;12] (repeat 0 12)
